@@ -588,7 +588,10 @@ func (s *AbsfsNFS) CreateWithContext(ctx context.Context, dir *NFSNode, name str
 	// Invalidate parent directory caches and negative cache entries in the directory
 	s.attrCache.Invalidate(dir.path)
 	s.attrCache.InvalidateNegativeInDir(dir.path)
-	s.attrCache.Invalidate(path) // Also invalidate the specific path in case it was negatively cached
+	// Also invalidate the specific path in case it was negatively cached, with
+	// any negative entry cached below it (a lookup through a handle of a
+	// directory that used to be at this path leaves one there)
+	s.attrCache.InvalidateSubtree(path)
 	if s.dirCache != nil {
 		s.dirCache.Invalidate(dir.path)
 	}
@@ -987,7 +990,10 @@ func (s *AbsfsNFS) Symlink(dir *NFSNode, name string, target string, attrs *NFSA
 	// Invalidate parent directory caches and negative cache entries in the directory
 	s.attrCache.Invalidate(dir.path)
 	s.attrCache.InvalidateNegativeInDir(dir.path)
-	s.attrCache.Invalidate(path) // Also invalidate the specific path in case it was negatively cached
+	// Also invalidate the specific path in case it was negatively cached, with
+	// any negative entry cached below it (a lookup through a handle of a
+	// directory that used to be at this path leaves one there)
+	s.attrCache.InvalidateSubtree(path)
 	if s.dirCache != nil {
 		s.dirCache.Invalidate(dir.path)
 	}
